@@ -140,6 +140,12 @@ def judge_call(b, svc, method, cmd, obs):
         if mm and payload and payload.get(mm.group(1)) == "":
             return [("request/%s/required-empty-string-reported-missing" % {"query string": "query"}.get(mm.group(2), mm.group(2)),
                      "%s: required attribute %s carried in the %s with value \"\" is answered missing_field" % (name, mm.group(1), mm.group(2)))]
+        for k, l in locs.items():
+            v = (payload or {}).get(k)
+            if l == "cookie" and isinstance(v, str) and not COOKIE_OCTET.match(v):
+                return [("request/cookie/value-outside-cookie-octets", "%s: cookie value %r is altered by net/http's sanitiser and then fails validation: %s" % (name, v, ce[:120]))]
+            if l == "header" and isinstance(v, str) and (not v.isascii() or v != v.strip() or any(ord(ch) < 32 for ch in v)):
+                return [("request/header/value-outside-field-content", "%s: header value %r is altered in transport and then fails validation: %s" % (name, v, ce[:120]))]
         return [("request/not-delivered/status-%s" % w.get("status"), "%s: valid payload %s did not reach the service: %s" % (name, json.dumps(payload)[:200], ce[:200]))]
     sent, got = canon(payload or {}), canon(obs.get("server_payload") or {})
     for path, s, g in diff_paths(sent, got):
